@@ -82,13 +82,25 @@ def make(targets, timeout=1500, jobs=None):
         return p.returncode == 0, p.stdout
 
 
+def _big_stack():
+    """coqc prints long vm_compute results recursively: give it the largest stack the system allows"""
+    import resource
+    try:
+        soft, hard = resource.getrlimit(resource.RLIMIT_STACK)
+        want = hard if hard != resource.RLIM_INFINITY else resource.RLIM_INFINITY
+        resource.setrlimit(resource.RLIMIT_STACK, (want, hard))
+    except Exception:
+        pass
+
+
 def coqc(path, timeout=600, cwd=None, top=None):
     cmd = ["timeout", str(timeout), "coqc", "-R", COQ, "AK",
            "-w", "-notation-overridden,-deprecated-hint-without-locality,-deprecated-instance-without-locality"]
     if top:
         cmd += ["-top", top]
     cmd.append(path)
-    p = subprocess.run(cmd, cwd=cwd or COQ, stdout=subprocess.PIPE, stderr=subprocess.STDOUT, text=True)
+    p = subprocess.run(cmd, cwd=cwd or COQ, stdout=subprocess.PIPE, stderr=subprocess.STDOUT, text=True,
+                       preexec_fn=_big_stack)
     return p.returncode, p.stdout
 
 
@@ -224,6 +236,14 @@ def _eval_shard(args):
         f.write("\n].\n")
         f.write("Eval vm_compute in (show_lines (map run cases)).\n")
     rc, out = coqc(path, timeout=timeout, cwd=wd, top=top)
+    if rc != 0 and "Stack overflow" in out and len(terms) > 1:
+        # the printed result of the shard was too long for coqc's stack: evaluate it in two halves
+        h = len(terms) // 2
+        _, l1, e1 = _eval_shard((f"{idx}a", run_mod, terms[:h], timeout, prelude))
+        _, l2, e2 = _eval_shard((f"{idx}b", run_mod, terms[h:], timeout, prelude))
+        if l1 is not None and l2 is not None:
+            return idx, l1 + l2, ""
+        return idx, None, e1 or e2
     if rc != 0:
         return idx, None, out
     m = re.search(r'=\s*"(.*)"\s*:\s*string', out, re.S)
